@@ -26,7 +26,7 @@ pub struct Case {
     /// in-memory .shp / .shx destinations already hold longer stale content (a reused buffer)
     pub prefill: bool,
     /// 0: as is; 1: palette shape a has no-data measures only (types with measures); 2 (disk): the file name has
-    /// several dots ("c08-<n>.v1.2024.shp"); 3: the pairs are written by one `write_shapes_and_records` call
+    /// several dots ("c08-<n>.v1.2024.shp"); 3: the pairs are written by one `write_shapes_and_records` call; 4: shape a has empty parts (in the middle and last)
     pub variant: u8,
 }
 
@@ -66,6 +66,9 @@ pub fn observe(pal: &Palette, case: &Case) -> Obs {
     let nodata_pal;
     let pal = if case.variant == 1 {
         nodata_pal = nodata_palette(case.ty);
+        &nodata_pal
+    } else if case.variant == 4 {
+        nodata_pal = empty_part_palette(case.ty);
         &nodata_pal
     } else {
         pal
@@ -216,6 +219,26 @@ fn exec_bulk(pal: &Palette, ops: &[POp], env: &PEnv) -> Vec<CallRes> {
     vec![one; ops.len()]
 }
 
+/// the palette whose shape a has (polygon and multipatch types) an empty part between two others, and an empty
+/// last part
+pub fn empty_part_palette(ty: Ty) -> Palette {
+    let mut pal = Palette::new(ty, Some(other_of(ty)));
+    if matches!(ty.family(), Family::Polygon | Family::Multipatch) {
+        let mut m = pal.model[0].clone();
+        let first = m.parts[0].clone();
+        let mut second = first.clone();
+        for q in second.pts.iter_mut() {
+            q[0] += 32.0;
+        }
+        let empty = MPart { kind: first.kind, pts: vec![] };
+        m.parts = vec![first, empty.clone(), second, empty];
+        pal.lib[0] = to_lib(&m);
+        pal.built[0] = from_lib(&pal.lib[0]);
+        pal.model[0] = m;
+    }
+    pal
+}
+
 /// the palette with every measure of shape a replaced by the no-data value
 pub fn nodata_palette(ty: Ty) -> Palette {
     let mut pal = Palette::new(ty, Some(other_of(ty)));
@@ -238,6 +261,9 @@ pub fn judge(pal: &Palette, case: &Case, o: &Obs) -> Vec<(String, String)> {
     let nodata_pal;
     let pal = if case.variant == 1 {
         nodata_pal = nodata_palette(case.ty);
+        &nodata_pal
+    } else if case.variant == 4 {
+        nodata_pal = empty_part_palette(case.ty);
         &nodata_pal
     } else {
         pal
@@ -500,6 +526,7 @@ pub fn check(tier: Tier) -> i32 {
         inits.push(vec![t, 3]);
         inits.push(vec![t, 4]);
         inits.push(vec![t, 5]);
+        inits.push(vec![t, 6]);
     }
     let (p2, ty2) = (pals.clone(), types.clone());
     let disk_depth = 3;
@@ -518,7 +545,7 @@ pub fn check(tier: Tier) -> i32 {
             }
         }),
         Arc::new(move |h, ctx| {
-            let case = Case { ty: ty2[h[0] as usize], disk: h[1] == 1 || h[1] == 4, ops: h[CFG..].iter().map(|b| POPS[*b as usize]).collect(), prefill: h[1] == 2, variant: match h[1] { 3 => 1, 4 => 2, 5 => 3, _ => 0 } };
+            let case = Case { ty: ty2[h[0] as usize], disk: h[1] == 1 || h[1] == 4, ops: h[CFG..].iter().map(|b| POPS[*b as usize]).collect(), prefill: h[1] == 2, variant: match h[1] { 3 => 1, 4 => 2, 5 => 3, 6 => 4, _ => 0 } };
             let pal = &p2[h[0] as usize];
             let mut hh = Fnv::new();
             hh.bytes(h);
@@ -592,7 +619,7 @@ pub fn check(tier: Tier) -> i32 {
             tier,
             level: "model_checking",
             engine: "E1 stateright BFS over write-call histories on the real complete Writer (three instrumented devices / from_path), read back with the real complete Reader",
-            rule: "every history up to the depth bound over {OkA, OkB, BadType, RowMissingField, RowWrongType, RowWrongFirstField} (first call accepted), rows carry the position of their call; in memory to the full depth, through Writer::from_path + shapefile::read / Reader::from_path (over paths that already hold longer files; also with a file name that has several dots, the companion files being looked up under their proper names) and into in-memory buffers that already hold longer stale content, and with a shape whose measures are all no-data, each to depth 3; all-success histories also through one write_shapes_and_records call; a second data set created through Reader::into_table_info + Writer::from_path_with_info gives the same three files; every file read back through read, iter_shapes_and_records and their typed forms read_as / iter_shapes_and_records_as; plus all-success histories of 255..2049 pairs (record-count ladder around powers of two, 1025 also by path); non-trivial = >= 2 calls",
+            rule: "every history up to the depth bound over {OkA, OkB, BadType, RowMissingField, RowWrongType, RowWrongFirstField} (first call accepted), rows carry the position of their call; in memory to the full depth, through Writer::from_path + shapefile::read / Reader::from_path (over paths that already hold longer files; also with a file name that has several dots, the companion files being looked up under their proper names) and into in-memory buffers that already hold longer stale content, and with a shape whose measures are all no-data resp. with empty parts in the middle and at the end, each to depth 3; all-success histories also through one write_shapes_and_records call; a second data set created through Reader::into_table_info + Writer::from_path_with_info gives the same three files; every file read back through read, iter_shapes_and_records and their typed forms read_as / iter_shapes_and_records_as; plus all-success histories of 255..2049 pairs (record-count ladder around powers of two, 1025 also by path); non-trivial = >= 2 calls",
             bounds: json!({"depth": depth, "disk_depth": disk_depth, "types": types.iter().map(|t| t.name()).collect::<Vec<_>>(), "alphabet": POPS.iter().map(|p| p.name()).collect::<Vec<_>>()}),
             exhaustive: true,
             assumptions: vec!["dbf tables without deleted rows; entry counts are read by the harness from the raw bytes (RefCodec scan, .shx parse, .dbf header bytes 4..8)".into()],
